@@ -176,4 +176,22 @@ theorem outer_le (c : LoopCtx) (bd : Nat) (h : outerLoop c (List.range maxBlockd
     bd ≤ maxBlockdep :=
   (outer_spec c _ _ _ (fun g hg => by have := List.mem_range.mp hg; omega) h).1
 
+/-! ## witness operations for the `padding.right` defect (used in `Props/C04.lean`) -/
+
+def witFm (addr : Int) : FMap :=
+  { region := 1, nhcwb16 := false, elemBytes := 1, shape := ⟨4, 8, 16⟩, tiles := ⟨4, 4, 8, addr, 0, 0, 0⟩, strides := none }
+
+/-- ABS 4×8×16 → 4×8×16 with OFM blocks of one row -/
+def witPrev : BlockOp :=
+  { isConv2D := false, ifm := witFm 0, ifm2 := none, ifm2Scalar := false, ofm := witFm 4096, kernel := none, padding := none,
+    weights := [], biases := [], usesLut := false, blockConfig := ⟨1, 8, 16⟩, ifmBits := 8 }
+
+/-- Conv2D 3 wide × 1 high, SAME padding `NpuPadding(top=0, left=1, bottom=0, right=…)`, OFM blocks of two rows -/
+def witOp (right : Int) : BlockOp :=
+  { isConv2D := true, ifm := witFm 4096, ifm2 := none, ifm2Scalar := false, ofm := witFm 8192,
+    kernel := some ⟨3, 1, 1, 1, 1, 1⟩, padding := some ⟨0, 1, 0, right⟩,
+    weights := [⟨0, 0, 1024⟩], biases := [⟨0, 4096, 160⟩], usesLut := false, blockConfig := ⟨2, 8, 16⟩, ifmBits := 8 }
+
+def witAcc : AccRow := (accelerators.find? (·.name = "ethos-u55-128")).getD default
+
 end VelaVerif.Lemmas.Blockdep
